@@ -125,6 +125,38 @@ theorem dropRow_book (items : RState) (st : St) (k : Nat) : Book st (dropRow ite
   · exact dropState_book _ _
   · exact Book.refl _
 
+theorem bump_book (st : St) (s : Nat) (d : Int) : Book st (bump st s d) := Book.of_eq rfl rfl
+
+theorem bumpTo_book (st : St) : ∀ (h : Option Nat) (d : Int), Book st (bumpTo st h d)
+  | none, _ => Book.refl st
+  | some s, d => bump_book st s d
+
+theorem clearTok_book (st : St) : ∀ (t : RState), Book st (clearTok st t) := by
+  intro t
+  induction t with
+  | errTok s => exact bump_book st s _
+  | hooked h inner ih => simpa only [clearTok] using ih
+  | _ => exact Book.refl st
+
+theorem ebOpen_book (st : St) : Book st (ebOpen st) := Book.of_eq rfl rfl
+
+theorem ebClose_book (saved : Option Nat) (s : Nat) (k : RState) (st : St) :
+    Book st (ebClose saved s k st).2 := by
+  unfold ebClose
+  simp only
+  have h := newEff_book st (.rd true (s + 1))
+  generalize newEff st (.rd true (s + 1)) = r at h ⊢
+  obtain ⟨e, v, st1⟩ := r
+  simp only at h ⊢
+  by_cases hv : (v != 0) = true
+  · simp only [hv, if_true]; exact h.trans (Book.of_eq rfl rfl)
+  · simp only [hv, if_false]; exact h.trans ((alloc_book st1).trans (Book.of_eq rfl rfl))
+
+theorem underHook_book (h : Option Nat) (f : St → RState × St × Nat) (hf : ∀ st, Book st (f st).2.1) (st : St) :
+    Book st (underHook h f st).2.1 := by
+  unfold underHook
+  exact ((Book.of_eq rfl rfl).trans (hf { st with hook := h })).trans (Book.of_eq rfl rfl)
+
 theorem build_book : ∀ (v : View) (st : St), Book st (build v st).2 := by
   intro v
   induction v with
@@ -166,6 +198,21 @@ theorem build_book : ∀ (v : View) (st : St), Book st (build v st).2 := by
         (List.range (listAt lists (newEff st (st.res sel)).2.1).length))
       ([], { (newEff st (st.res sel)).2.2 with next := (rowsKs st sel lists).w.next })
     exact (h1.trans h2).trans (spawn_book _ _)
+  | eb kid ih =>
+    intro st
+    simp only [build]
+    exact ((ebOpen_book st).trans (ih _)).trans (ebClose_book _ _ _ _)
+  | res c x =>
+    intro st
+    simp only [build]
+    have h := newEff_book st (st.res (resBody c x))
+    generalize newEff st (st.res (resBody c x)) = r at h ⊢
+    obtain ⟨e, v, st1⟩ := r
+    simp only at h ⊢
+    refine Book.trans (h.trans (alloc_book st1)) ?_
+    by_cases hv : (decodeRes v).isNone = true
+    · simp only [hv, if_true]; exact (bumpTo_book _ _ _).trans (spawn_book _ _)
+    · simp only [hv, if_false]; exact spawn_book _ _
 
 theorem replace_book (v : View) (old : RState) (st : St) : Book st (replace v old st).2.1 :=
   (build_book v st).trans (dropState_book _ _)
@@ -238,6 +285,8 @@ theorem rebuild_book : ∀ (v : View) (old : RState) (st : St), Book st (rebuild
         { (newLocal (killAll st [m0]) sid d).2 with
           locals := (newLocal (killAll st [m0]) sid d).1 :: (newLocal (killAll st [m0]) sid d).2.locals }).trans (ih _ _)
   | forRows en sel lists row _ => intro old st; exact replace_book _ _ _
+  | eb kid _ => intro old st; exact replace_book _ _ _
+  | res c x => intro old st; exact replace_book _ _ _
 
 
 theorem rerunFor_book (st : St) (ks : Keyed.KState) (texts : List (Nat × Nat)) (keys : List Nat) :
@@ -304,6 +353,33 @@ theorem rerunIn_book (e : Nat) (w : Int) : ∀ (t : RState) (st : St), Book st (
     · exact ih st
   | rowCons k ix r rest ihr ihrest => intro st; simp only [rerunIn]; exact (ihr st).trans (ihrest _)
   | rowNil => intro st; exact Book.refl st
+  | errb e' m s fb kid ih =>
+    intro st
+    simp only [rerunIn]
+    split
+    · split
+      · split
+        · exact Book.refl st
+        · exact Book.refl st
+      · split
+        · exact Book.refl st
+        · exact alloc_book st
+    · exact underHook_book _ _ ih st
+  | res e' c x n last hook =>
+    intro st
+    simp only [rerunIn]
+    split
+    · split
+      · exact bumpTo_book _ _ _
+      · exact (alloc_book st).trans (bumpTo_book _ _ _)
+      · exact (alloc_book st).trans (bumpTo_book _ _ _)
+      · exact Book.refl st
+    · exact Book.refl st
+  | hooked h inner ih =>
+    intro st
+    simp only [rerunIn]
+    exact underHook_book _ _ ih st
+  | errTok s => intro st; exact Book.refl st
 
 theorem rerunZombies_book (e : Nat) (w : Int) : ∀ (zs : List (Nat × Option RState)) (st : St),
     Book st (rerunZombies e w zs st).2
@@ -359,7 +435,7 @@ theorem releaseZombie_book (st : St) (e : Nat) : Book st (releaseZombie st e) :=
     apply ih
     cases z.2 with
     | none => exact h0
-    | some t => exact h0.trans (dropState_book _ _)
+    | some t => exact (h0.trans (clearTok_book _ _)).trans (dropState_book _ _)
 
 theorem pollTask_book (st : St) (e : Nat) : Book st (pollTask st e) := by
   unfold pollTask
